@@ -400,7 +400,8 @@ def state_invariant_holds(fx):
     for b in fx.fn_bodies():
         if b.get("impl_self") != ST or not b.get("hir"):
             continue
-        root = b["hir"]["value"]
+        # read together with the state's own private methods (a shared "start tracking this variable" helper)
+        root = F.inline_module_helpers(fx, b, max_nodes=400, methods=True)["hir"]["value"]
         for m, _ in F.walk(root):
             if m.get("s") != "Let" or "init" not in m or m["pat"].get("p") != "Bind":
                 continue
@@ -547,6 +548,51 @@ def verify_seen_cut(fx, cg, comp):
             return False, f"variant(s) {missing} recurse but are not cut by the guard", smp
         return True, "", smp
     return False, "no `seen.contains(..)` guard with an early return found in the cycle", {}
+
+
+def follow_rows_into_helpers(fx, rep, rows, used_rows):
+    """A reviewed site that was moved, as it stands, out of its function into a helper keeps its row: the helper has no rows of
+    its own, every function that calls the helper has a row for a site of the same kind and ordinal, that row matches no site
+    any more (the site left the caller), and all those rows say the same. Anything else stays a violation."""
+    import re
+
+    def norm(k):
+        return re.sub(r"\{closure#\d+\}", "{closure}", k)
+
+    cg = F.CallGraph(fx)
+    callers = {}
+    for src, dsts in cg.edges.items():
+        for d in dsts:
+            callers.setdefault(tables._parent_fn(d), set()).add(tables._parent_fn(src))
+    stale = {k for k in rows if k not in used_rows}
+    stale_by = {}
+    for k in stale:
+        fn, rest = tables._fn_of_key(k)
+        par = tables._parent_fn(fn)
+        stale_by.setdefault(par, {})[norm(fn[len(par):] + rest)] = k
+    followed, keep = [], []
+    for v in rep.violations:
+        if v["rule"] not in ("R01.1", "R01.2") or "|" not in v["key"]:
+            keep.append(v)
+            continue
+        site = v["key"].split("|", 1)[1]
+        fn, rest = tables._fn_of_key(site)
+        par = tables._parent_fn(fn)
+        cs = callers.get(par, set()) - {par}
+        suffix = norm(fn[len(par):] + rest)
+        if par in rows.table_parents or not cs or not all(suffix in stale_by.get(c, {}) for c in cs):
+            keep.append(v)
+            continue
+        olds = [stale_by[c][suffix] for c in sorted(cs)]
+        if len({rows.rows[o][1] for o in olds}) != 1:
+            keep.append(v)
+            continue
+        used_rows.update(olds)
+        rep.discharged += 1
+        followed.append({"site": site, "rows": olds, "class": rows.rows[olds[0]][1]})
+    rep.violations[:] = keep
+    if followed:
+        rep.extra["rows_followed_into_helpers"] = followed
 
 
 def check(fx, rep, tier):
@@ -899,6 +945,7 @@ def check(fx, rep, tier):
     rep.floor("R01.1", n_assert, 60, "arithmetic assertions in reachable code")
     rep.floor("R01.1", n_call, 30, "calls of functions that can panic in reachable code")
     rep.floor("R01.2", len(ta.sources), 5, "narrowing sources (256-bit word -> native integer)")
+    follow_rows_into_helpers(fx, rep, rows, used_rows)
     stale = sorted(set(rows) - used_rows)
     rep.extra["stale_table_rows"] = stale[:20]
 
